@@ -8,10 +8,11 @@ import re
 HERE = os.path.dirname(os.path.abspath(__file__))
 COQ = os.path.join(HERE, "..", "coq")
 g = open(os.path.join(COQ, "Gen", "Generated.v")).read()
-defs = dict(re.findall(r"Definition (skel\w+) : list string := (\[.*?\n\])\.", g, flags=re.S))
-HEADER = '''(** The statement skeletons of the run-time wrappers against which the hand-written model
-    (Model/Checker.v, Model/Run.v) was written, pinned: a change of the wrappers in /repo breaks a
-    lemma here; that is not by itself a violation - it makes the checks search for a failing input.
+defs = dict(re.findall(r"Definition ((?:skel|src_)\w+) : list string := (\[.*?\n\])\.", g, flags=re.S))
+HEADER = '''(** The source text against which the hand-written models were written, pinned (SkelPin*: the
+    statement skeletons of the run-time wrappers; SrcPin*: every statement of the package, normalised by
+    unparsing): a change in /repo breaks a lemma here; that is not by itself a violation - it makes the
+    checks search for a failing input.
     (regenerate with harness/repin.py after reviewing the model against the new code) *)
 From ICV Require Import Base Generated.
 Open Scope string_scope.
@@ -25,6 +26,13 @@ FILES = {
                          ("pinned_assert_postconditions", "skel_assert_postconditions_sync")],
     "SkelPinInv.v": [("pinned_init_wrapper", "skel_init_wrapper"), ("pinned_invariant", "skel_invariant_sync"),
                      ("pinned_new_wrapper", "skel_new_wrapper")],
+    # the whole source, statement by statement: what the hand-written models were written against
+    "SrcPinCheckers.v": [("pinned_src_checkers", "src_checkers")],
+    "SrcPinElab.v": [("pinned_src_checkers_elab", "src_checkers_elab"), ("pinned_src_metaclass", "src_metaclass"),
+                     ("pinned_src_decorators", "src_decorators"), ("pinned_src_types", "src_types")],
+    "SrcPinExpr.v": [("pinned_src_recompute", "src_recompute"), ("pinned_src_represent", "src_represent")],
+    "SrcPinGlobals.v": [("pinned_src_globals", "src_globals"), ("pinned_src_errors", "src_errors"),
+                        ("pinned_src_init", "src_init")],
 }
 for fn, pins in FILES.items():
     out = [HEADER]
